@@ -6,6 +6,7 @@ import (
 	"bytes"
 	"errors"
 	"fmt"
+	"io"
 	"reflect"
 	"strings"
 
@@ -53,6 +54,13 @@ type Config struct {
 	Defer   bool
 	Recover bool
 	Dry     bool
+	// Observe makes the harness look at the container after every operation
+	// (Visualize of the whole container, with the error of the most recent
+	// failed Invoke when there is one, and String of every scope), discarding
+	// the output: observations are then interleaved with every history, which
+	// the breadth-first search by itself never does because an observation
+	// leaves the fingerprint unchanged.
+	Observe bool
 }
 
 func (c Config) String() string {
@@ -62,7 +70,11 @@ func (c Config) String() string {
 		}
 		return 0
 	}
-	return fmt.Sprintf("new defer=%d recover=%d dry=%d", b(c.Defer), b(c.Recover), b(c.Dry))
+	s := fmt.Sprintf("new defer=%d recover=%d dry=%d", b(c.Defer), b(c.Recover), b(c.Dry))
+	if c.Observe {
+		s += " observe=1"
+	}
+	return s
 }
 
 // Verdict classifies the outcome of one API call without looking at message text.
@@ -145,6 +157,8 @@ type Run struct {
 	uses   map[string]int
 	decls  map[string]string // declared pool function -> instance name in this run
 	nested map[string][]Op   // instance -> ops its body performs
+	// ObsFault is the first panic that escaped an observation (Config.Observe)
+	ObsFault string
 }
 
 func NewRun(cfg Config) *Run {
@@ -263,6 +277,11 @@ func (r *Run) ProvideOptions(f *u.Func, inst string, st *Step) []dig.ProvideOpti
 		st.PInfo = PoisonedProvideInfo()
 		po = append(po, dig.FillProvideInfo(st.PInfo))
 	}
+	if f.OptsRev {
+		for i, j := 0, len(po)-1; i < j; i, j = i+1, j-1 {
+			po[i], po[j] = po[j], po[i]
+		}
+	}
 	return po
 }
 
@@ -363,6 +382,11 @@ func (r *Run) Apply(op Op) *Step {
 					st.DInfo = PoisonedDecorateInfo()
 					do = append(do, dig.FillDecorateInfo(st.DInfo))
 				}
+				if op.Fn.OptsRev {
+					for i, j := 0, len(do)-1; i < j; i, j = i+1, j-1 {
+						do[i], do[j] = do[j], do[i]
+					}
+				}
 			}
 			err = s.Decorate(fn, do...)
 		case OpInvoke:
@@ -396,6 +420,9 @@ func (r *Run) Apply(op Op) *Step {
 		st.V = classify(err)
 	}()
 	st.LogTo = len(r.RT.Log)
+	if r.Cfg.Observe && op.Kind != OpVisualize && op.Kind != OpString {
+		r.observe()
+	}
 	// instance names count accepted uses only: a rejected registration must
 	// leave no trace, so re-registering the same function later is the same
 	// function again (and differential runs with/without the rejected call
@@ -413,6 +440,22 @@ func (r *Run) Apply(op Op) *Step {
 		}
 	}
 	return st
+}
+
+// observe looks at the container without (supposedly) changing it.
+func (r *Run) observe() {
+	defer func() {
+		if p := recover(); p != nil && r.ObsFault == "" {
+			r.ObsFault = firstLine(fmt.Sprint(p))
+		}
+	}()
+	_ = dig.Visualize(r.C, io.Discard)
+	if k := r.VisErrStep(Op{Kind: OpVisualize, VisErr: -1}); k >= 0 {
+		_ = dig.Visualize(r.C, io.Discard, dig.VisualizeError(r.Steps[k].V.Err))
+	}
+	for _, s := range r.Scopes {
+		_ = s.String()
+	}
 }
 
 // VisErrStep resolves which step's error an OpVisualize passes to
